@@ -287,10 +287,17 @@ def check_incomplete_frame(ctx, eng):
     I = eng.interp(fb, depth=2)
     paths = I.run(fi)
     guards = set()
+    on_return = {cm.show0(e.cond) for p in cm.normal_paths(paths)
+                 for e in p.events if e.kind == 'assume'}
     for p in paths:
         r = cm.explicit_raise(p)
         if r is not None and p.exc['names'] == {'StopIteration'}:
             before = [e for e in p.events[:p.index(r)] if e.kind == 'assume']
+            # what made this path stop: the conditions it assumed that no
+            # path handing out a frame assumes (the last one at least)
+            for e in before:
+                if cm.show0(e.cond) not in on_return:
+                    guards.add(cm.show0(e.cond))
             if before:
                 guards.add(cm.show0(before[-1].cond))
     ctx.require(len(guards) >= 2, 'the incomplete-frame exits of '
